@@ -507,6 +507,7 @@ func c17(c *Ctx) {
 			r.Check(len(bad) == 0 && n > 0, "R17.M", "only-handled-errors-are-reissued", c.pos(mk.Pos()), sprintf("%d re-issue(s) in the rpc_error arm; %s", n, strings.Join(bad, "; ")))
 		}
 	}
+	c.handledOnlyByReconnect("R17.M")
 	// "the address configured for data centre X" is the configuration of THIS client: the table a client looks X
 	// up in is a map made for it, not one it shares with every other client of the process (SetDCList writes
 	// into the table in place)
@@ -636,4 +637,59 @@ func (c *Ctx) reissueOnlyWhenAsked(rule string) {
 		return
 	}
 	r.Check(len(bad) == 0, rule, "reissue:only-when-asked", c.pos(mk.Pos()), sprintf("%d re-issue(s); %s", n, strings.Join(bad, "; ")))
+}
+
+// handledOnlyByReconnect: "nil" from tryToProcessErr means "the cause is repaired, issue the request again".  The
+// one repair the client knows is the reconnect to another data centre, so every return of tryToProcessErr hands
+// back the error it was given (itself or wrapped) or the result of Reconnect() - never a nil of its own (an error
+// class declared "worth retrying" is re-sent for ever and never reaches its caller).
+func (c *Ctx) handledOnlyByReconnect(rule string) {
+	r := c.R
+	f := c.fn(rule, load.RootMod, "*MTProto", "tryToProcessErr")
+	if f == nil || len(f.Params) < 2 {
+		return
+	}
+	n := 0
+	var bad []string
+	var ok1 func(v ssa.Value, d int) bool
+	ok1 = func(v ssa.Value, d int) bool {
+		if d > 5 {
+			return false
+		}
+		switch x := v.(type) {
+		case *ssa.MakeInterface:
+			return x.X == ssa.Value(f.Params[1])
+		case *ssa.Phi:
+			for _, e := range x.Edges {
+				if !ok1(e, d+1) {
+					return false
+				}
+			}
+			return true
+		case *ssa.Call:
+			name := an.CalleeName(x.Common())
+			if strings.HasSuffix(name, "MTProto).Reconnect") {
+				return true
+			}
+			if name == "github.com/pkg/errors.Wrapf" || name == "github.com/pkg/errors.Wrap" || name == "github.com/pkg/errors.WithMessage" {
+				// wraps the error it was given: non-nil
+				return len(x.Call.Args) > 0 && ok1(x.Call.Args[0], d+1)
+			}
+		}
+		return false
+	}
+	for _, b := range f.Blocks {
+		for _, in := range b.Instrs {
+			ret, ok := an.AsReturn(in)
+			if !ok || len(ret.Results) != 1 {
+				continue
+			}
+			n++
+			v := an.RetVal(ret, 0)
+			if !ok1(v, 0) {
+				bad = append(bad, "the return at "+c.pos(ret.Pos())+" hands back "+v.String())
+			}
+		}
+	}
+	r.Check(n > 0 && len(bad) == 0, rule, "handled-only-by-reconnect", c.pos(f.Pos()), sprintf("%d return(s) of tryToProcessErr, each the given error (itself or wrapped) or the result of Reconnect(); %s", n, strings.Join(bad, "; ")))
 }
